@@ -501,9 +501,10 @@ def evaluate__max_min_functions(self: XPathFunction, context: ta.ContextType = N
         elif any(isinstance(x, float) and math.isnan(x) for x in values):
             return float_class('NaN')
         elif all(isinstance(x, (int, float, Decimal)) for x in values):
-            return float_class(
-                aggregate_func(cast(list[NumericType], values))
-            )
+            result = aggregate_func(cast(list[NumericType], values))
+            if isinstance(result, int):
+                result = get_double(result)  # INF beyond the xs:double range, no OverflowError
+            return float_class(result)
         return aggregate_func(values)  # type: ignore[type-var]
 
     values: list[AtomicType] = []
